@@ -21,7 +21,7 @@ func (c05) Info() core.Info {
 		Level: "exploration",
 		Rule: "seeded swarm generation of multi-input session histories (functions with 0..12 parameters of mixed types, nested counted loops, loop variables shadowing " +
 			"parameters/globals, closures, parameter mutation, every loop exit kind, long runs of top-level loops, deadline faults addressed by the k-th execution of a planted marker, " +
-			"allocation refusal) plus a deterministic sweep (parameter count x loop depth x exit kind); the same concrete history is executed with State.NoReg=false and true on the real code " +
+			"allocation refusal, integer variables as map keys and field names, catch(for ...) in the same environment, loop values alive past their loop) plus fixed agreeing histories (:= reuse of a parameter, operand orders of ==) and a deterministic sweep (parameter count x loop depth x exit kind); the same concrete history is executed with State.NoReg=false and true on the real code " +
 			"and every input must give identical output/value/outcome class, and final globals must agree. distinct = distinct sequence of (tag, fault kind, outcome classes); " +
 			"non-trivial = the history contains at least one counted loop or integer parameter (i.e. the register path is exercised).",
 		Real:    commonReal,
